@@ -177,6 +177,70 @@ Definition launched (exec_line : bytes) : option bytes :=
   | [] => None
   end.
 
+(* ------------------------------------------------------------------------------------------ the allowlist, pinned *)
+(* SPECIFICATION copy of the allowlist (blank lines, comments, the three kinds of group header, the Desktop Entry keys
+   snapd lets through), as it stood when this check was written. The model above uses the REGENERATED list; the monitor
+   below judges the implementation's output against this pinned list, so a key added to the source shows up as a
+   concrete failing input, and proofs/DesktopProofs.v proves regenerated = pinned. *)
+Definition spec_line_alts : list regex := [
+  (* "^\\s*$" *)
+  (Star (Cls [(9,10);(12,13);(32,32)]));
+  (* "^\\s*#" *)
+  (search_r (Cat (Star (Cls [(9,10);(12,13);(32,32)])) (Lit [35])));
+  (* "^\\[Desktop Entry\\]$" *)
+  (Lit [91;68;101;115;107;116;111;112;32;69;110;116;114;121;93]);
+  (* "^\\[Desktop Action [0-9A-Za-z-]+\\]$" *)
+  (Cat (Lit [91;68;101;115;107;116;111;112;32;65;99;116;105;111;110;32]) (Cat (Plus (Cls [(45,45);(48,57);(65,90);(97,122)])) (Lit [93])));
+  (* "^\\[[A-Za-z0-9-]+ Shortcut Group\\]$" *)
+  (Cat (Lit [91]) (Cat (Plus (Cls [(45,45);(48,57);(65,90);(97,122)])) (Lit [32;83;104;111;114;116;99;117;116;32;71;114;111;117;112;93])));
+  (* "^Type=" *)
+  (search_r (Lit [84;121;112;101;61]));
+  (* "^Version=" *)
+  (search_r (Lit [86;101;114;115;105;111;110;61]));
+  (* "^Name(?:\\[[a-z]+(?:_[A-Z]+)?(?:\\.[0-9A-Z-]+)?(?:@[a-z]+)?\\])?=" *)
+  (search_r (Cat (Lit [78;97;109;101]) (Cat (Opt (Cat (Lit [91]) (Cat (Plus (Cls [(97,122)])) (Cat (Opt (Cat (Lit [95]) (Plus (Cls [(65,90)])))) (Cat (Opt (Cat (Lit [46]) (Plus (Cls [(45,45);(48,57);(65,90)])))) (Cat (Opt (Cat (Lit [64]) (Plus (Cls [(97,122)])))) (Lit [93]))))))) (Lit [61]))));
+  (* "^GenericName(?:\\[[a-z]+(?:_[A-Z]+)?(?:\\.[0-9A-Z-]+)?(?:@[a-z]+)?\\])?=" *)
+  (search_r (Cat (Lit [71;101;110;101;114;105;99;78;97;109;101]) (Cat (Opt (Cat (Lit [91]) (Cat (Plus (Cls [(97,122)])) (Cat (Opt (Cat (Lit [95]) (Plus (Cls [(65,90)])))) (Cat (Opt (Cat (Lit [46]) (Plus (Cls [(45,45);(48,57);(65,90)])))) (Cat (Opt (Cat (Lit [64]) (Plus (Cls [(97,122)])))) (Lit [93]))))))) (Lit [61]))));
+  (* "^NoDisplay=" *)
+  (search_r (Lit [78;111;68;105;115;112;108;97;121;61]));
+  (* "^Comment(?:\\[[a-z]+(?:_[A-Z]+)?(?:\\.[0-9A-Z-]+)?(?:@[a-z]+)?\\])?=" *)
+  (search_r (Cat (Lit [67;111;109;109;101;110;116]) (Cat (Opt (Cat (Lit [91]) (Cat (Plus (Cls [(97,122)])) (Cat (Opt (Cat (Lit [95]) (Plus (Cls [(65,90)])))) (Cat (Opt (Cat (Lit [46]) (Plus (Cls [(45,45);(48,57);(65,90)])))) (Cat (Opt (Cat (Lit [64]) (Plus (Cls [(97,122)])))) (Lit [93]))))))) (Lit [61]))));
+  (* "^Icon=" *)
+  (search_r (Lit [73;99;111;110;61]));
+  (* "^Hidden=" *)
+  (search_r (Lit [72;105;100;100;101;110;61]));
+  (* "^OnlyShowIn=" *)
+  (search_r (Lit [79;110;108;121;83;104;111;119;73;110;61]));
+  (* "^NotShowIn=" *)
+  (search_r (Lit [78;111;116;83;104;111;119;73;110;61]));
+  (* "^Exec=" *)
+  (search_r (Lit [69;120;101;99;61]));
+  (* "^Terminal=" *)
+  (search_r (Lit [84;101;114;109;105;110;97;108;61]));
+  (* "^Actions=" *)
+  (search_r (Lit [65;99;116;105;111;110;115;61]));
+  (* "^MimeType=" *)
+  (search_r (Lit [77;105;109;101;84;121;112;101;61]));
+  (* "^Categories=" *)
+  (search_r (Lit [67;97;116;101;103;111;114;105;101;115;61]));
+  (* "^Keywords(?:\\[[a-z]+(?:_[A-Z]+)?(?:\\.[0-9A-Z-]+)?(?:@[a-z]+)?\\])?=" *)
+  (search_r (Cat (Lit [75;101;121;119;111;114;100;115]) (Cat (Opt (Cat (Lit [91]) (Cat (Plus (Cls [(97,122)])) (Cat (Opt (Cat (Lit [95]) (Plus (Cls [(65,90)])))) (Cat (Opt (Cat (Lit [46]) (Plus (Cls [(45,45);(48,57);(65,90)])))) (Cat (Opt (Cat (Lit [64]) (Plus (Cls [(97,122)])))) (Lit [93]))))))) (Lit [61]))));
+  (* "^StartupNotify=" *)
+  (search_r (Lit [83;116;97;114;116;117;112;78;111;116;105;102;121;61]));
+  (* "^StartupWMClass=" *)
+  (search_r (Lit [83;116;97;114;116;117;112;87;77;67;108;97;115;115;61]));
+  (* "^PrefersNonDefaultGPU=" *)
+  (search_r (Lit [80;114;101;102;101;114;115;78;111;110;68;101;102;97;117;108;116;71;80;85;61]));
+  (* "^SingleMainWindow=" *)
+  (search_r (Lit [83;105;110;103;108;101;77;97;105;110;87;105;110;100;111;119;61]));
+  (* "^X-Ayatana-Desktop-Shortcuts=" *)
+  (search_r (Lit [88;45;65;121;97;116;97;110;97;45;68;101;115;107;116;111;112;45;83;104;111;114;116;99;117;116;115;61]));
+  (* "^TargetEnvironment=" *)
+  (search_r (Lit [84;97;114;103;101;116;69;110;118;105;114;111;110;109;101;110;116;61]))
+].
+
+Definition spec_valid_line (line : bytes) : bool := existsb (fun r => rmatch r line) spec_line_alts.
+
 (* ------------------------------------------------------------------------------------------ correspondence *)
 (* observed: the bytes sanitizeDesktopFile returned *)
 Inductive case := Case (i : dinfo) (df content : bytes) (out : bytes).
@@ -184,7 +248,7 @@ Inductive case := Case (i : dinfo) (df content : bytes) (out : bytes).
 Definition mismatch (c : case) : bool :=
   match c with Case i df content out => negb (beq (sanitize i df content) out) end.
 
-(* monitor on the observed output only: every output line is allowlisted (the real expression, through valid_line) or
+(* monitor on the observed output only: every output line is allowlisted (the pinned specification list) or
    the instance line; every Exec= line starts with Exec=env BAMF_DESKTOP_FILE_HINT= and, as launched, runs the wrapper
    of one of the snap's apps; a [Desktop Entry] line is followed by the instance line *)
 Definition exec_ok (i : dinfo) (df l : bytes) : bool :=
@@ -202,7 +266,7 @@ Definition monitor_fail (c : case) : bool :=
   match c with
   | Case i df content out =>
       let ls := split_lines out in
-      negb (forallb (fun l => (valid_line l || beq l (xsnap_line i)) &&
+      negb (forallb (fun l => (spec_valid_line l || beq l (xsnap_line i)) &&
                               (if has_prefix lit_exec l then exec_ok i df l else true)) ls
             && tagged_ok i ls)
   end.
